@@ -125,3 +125,46 @@ def parse_harness(res):
         out.append({'it': it, 'err': err, 'nbgh': nbgh, 'nred': nred, 'flag': flag, 'lhs': lhs, 'rhs': rhs, 'wgt': wgt,
                     'zam': zam, 'var0': var0, 'est': est, 'std': std, 'varz': varz, 'clhs': clhs, 'crhs': crhs, 'c00': c00, 'cvv': cvv})
     return drifts, ok, out
+
+
+# ---- independent evaluation of the nested anisotropic covariance (validates the oracle Model::eval used by C01/C02) ----
+SCADEF = {COV_SPH: 1.0, COV_EXP: 2.995732, COV_GAUS: 1.730818, COV_CUBIC: 1.0}   # documented practical-range factors
+
+def rot_rows(ndim, ang):
+    """rows = unit vectors of the rotated axes (doc: angles in degrees, first about Oz counter-clockwise, then Oy', then Ox'')"""
+    if ndim == 2:
+        a = math.radians(ang[0]); c, s_ = math.cos(a), math.sin(a)
+        return [[c, s_], [-s_, c]]
+    if ndim == 3:
+        ca, sa = zip(*[(math.cos(math.radians(a)), math.sin(math.radians(a))) for a in ang])
+        return [[ca[0] * ca[1], sa[0] * ca[1], -sa[1]],
+                [-sa[0] * ca[2] + ca[0] * sa[1] * sa[2], ca[0] * ca[2] + sa[0] * sa[1] * sa[2], ca[1] * sa[2]],
+                [sa[0] * sa[2] + ca[0] * sa[1] * ca[2], -ca[0] * sa[2] + sa[0] * sa[1] * ca[2], ca[1] * ca[2]]]
+    return [[1.0]]
+
+def basic_cor(t, h):
+    if t == COV_SPH: return 1 - 0.5 * h * (3 - h * h) if h < 1 else 0.0
+    if t == COV_EXP: return math.exp(-h)
+    if t == COV_GAUS: return math.exp(-h * h)
+    if t == COV_CUBIC:
+        h2 = h * h
+        return max(0.0, 1 - h2 * (7 + h * (-8.75 + h2 * (3.5 - 0.75 * h2)))) if h < 1 else 0.0
+    raise ValueError(t)
+
+def cov_reference(model, ndim, nvar, d):
+    """nvar x nvar covariance matrix at the increment d (floats), from the definition: sum over structures of
+    sill * rho(|diag(scadef/range) R d|), nugget counted at zero distance"""
+    out = [[0.0] * nvar for _ in range(nvar)]
+    for st in model['structs']:
+        t = st[0]; rg = float(undy(st[1])); rgs = [float(undy(x)) for x in st[2]]; ang = [float(undy(x)) for x in st[3]]
+        sill = [float(undy(x)) for x in st[4]]
+        if t == COV_NUGGET:
+            rho = 1.0 if math.sqrt(sum(x * x for x in d)) < 1e-10 else 0.0
+        else:
+            rr = rgs if rgs else [rg] * ndim
+            rows = rot_rows(ndim, ang) if (ang and ndim > 1) else [[1.0 if i == j else 0.0 for j in range(ndim)] for i in range(ndim)]
+            h = math.sqrt(sum((sum(rows[i][j] * d[j] for j in range(ndim)) * SCADEF[t] / rr[i]) ** 2 for i in range(ndim)))
+            rho = basic_cor(t, h)
+        for a in range(nvar):
+            for b in range(nvar): out[a][b] += sill[a * nvar + b] * rho
+    return out
